@@ -269,6 +269,19 @@ async fn spawn(engine: nu::Engine, store: Store, task: GeneratorTask) {
                     handle
                         .block_on(async { append(store.clone(), &task, "recv", Some(val)).await })
                         .unwrap();
+                } else if let Value::List { vals, .. } = value {
+                    // a list value is emitted like a stream of its elements
+                    for value in vals {
+                        if let Value::String { val, .. } = value {
+                            handle
+                                .block_on(async {
+                                    append(store.clone(), &task, "recv", Some(val)).await
+                                })
+                                .unwrap();
+                        } else {
+                            panic!("Unexpected Value type in list");
+                        }
+                    }
                 } else {
                     panic!("Unexpected Value type in PipelineData::Value");
                 }
